@@ -93,3 +93,322 @@ pub mod vfself {
 mod playback {
     include!(concat!(env!("HUMPHREY_VERIF"), "/build/playback/in_app_playback.rs"));
 }
+
+pub mod c07 {
+    use crate::http::headers::HeaderType;
+    use crate::http::StatusCode;
+    use std::convert::TryFrom;
+
+    /// (code, reason phrases registered for it: RFC 2616 / RFC 7231 / RFC 9110 wording) -- written from the RFCs,
+    /// not from status.rs. Humphrey models exactly these 39 codes.
+    const REGISTRY: [(u16, &[&str]); 39] = [
+        (100, &["Continue"]),
+        (101, &["Switching Protocols"]),
+        (200, &["OK"]),
+        (201, &["Created"]),
+        (202, &["Accepted"]),
+        (203, &["Non-Authoritative Information"]),
+        (204, &["No Content"]),
+        (205, &["Reset Content"]),
+        (206, &["Partial Content"]),
+        (300, &["Multiple Choices"]),
+        (301, &["Moved Permanently"]),
+        (302, &["Found"]),
+        (303, &["See Other"]),
+        (304, &["Not Modified"]),
+        (305, &["Use Proxy"]),
+        (307, &["Temporary Redirect"]),
+        (400, &["Bad Request"]),
+        (401, &["Unauthorized"]),
+        (403, &["Forbidden"]),
+        (404, &["Not Found"]),
+        (405, &["Method Not Allowed"]),
+        (406, &["Not Acceptable"]),
+        (407, &["Proxy Authentication Required"]),
+        (408, &["Request Timeout", "Request Time-out"]),
+        (409, &["Conflict"]),
+        (410, &["Gone"]),
+        (411, &["Length Required"]),
+        (412, &["Precondition Failed"]),
+        (413, &["Request Entity Too Large", "Payload Too Large", "Content Too Large"]),
+        (414, &["Request-URI Too Long", "Request-URI Too Large", "URI Too Long"]),
+        (415, &["Unsupported Media Type"]),
+        (416, &["Requested Range Not Satisfiable", "Requested range not satisfiable", "Range Not Satisfiable"]),
+        (417, &["Expectation Failed"]),
+        (500, &["Internal Server Error"]),
+        (501, &["Not Implemented"]),
+        (502, &["Bad Gateway"]),
+        (503, &["Service Unavailable"]),
+        (504, &["Gateway Timeout", "Gateway Time-out"]),
+        (505, &["HTTP Version Not Supported", "HTTP Version not supported"]),
+    ];
+
+    fn modelled(c: u16) -> bool {
+        matches!(c, 100 | 101 | 200..=206 | 300..=305 | 307 | 400 | 401 | 403..=417 | 500..=505)
+    }
+
+    /// For all 65 536 codes: try_from accepts exactly the modelled codes, and converting back gives the same number.
+    #[kani::proof]
+    pub fn c07_status_code_u16_complete() {
+        let c: u16 = kani::any();
+        match StatusCode::try_from(c) {
+            Ok(v) => {
+                assert!(modelled(c), "only registered, modelled codes are accepted");
+                assert!(u16::from(v) == c, "code -> variant -> code is the identity");
+                assert!(matches!(StatusCode::try_from(u16::from(v)), Ok(w) if w == v), "variant -> code -> variant is the identity");
+            }
+            Err(_) => assert!(!modelled(c), "every modelled code is accepted"),
+        }
+        kani::cover!(c == 505, "505 reachable");
+    }
+
+    /// Reason phrase of every modelled code is a phrase registered for that code.
+    #[kani::proof]
+    #[kani::unwind(41)]
+    pub fn c07_reason_phrases_registered() {
+        let mut n = 0;
+        for (code, phrases) in REGISTRY.iter() {
+            let v = match StatusCode::try_from(*code) {
+                Ok(v) => v,
+                Err(_) => {
+                    assert!(false, "registry code is modelled");
+                    return;
+                }
+            };
+            let s: &str = v.into();
+            let mut ok = false;
+            for p in phrases.iter() {
+                if s == *p {
+                    ok = true;
+                }
+            }
+            assert!(ok, "reason phrase is the registered one for its code");
+            n += 1;
+        }
+        assert!(n == 39);
+    }
+
+    /// HeaderType::from(name in any ASCII case mix) is the named variant and to_string gives back the canonical name.
+    fn header_case_insensitive<const N: usize>(canon: &str, expect: HeaderType) {
+        assert!(canon.len() == N);
+        let mut b = [0u8; N];
+        b.copy_from_slice(canon.as_bytes());
+        let mut i = 0;
+        while i < N {
+            let flip: bool = kani::any();
+            if flip && b[i].is_ascii_alphabetic() {
+                b[i] ^= 0x20;
+            }
+            i += 1;
+        }
+        let s = unsafe { std::str::from_utf8_unchecked(&b) };
+        let h = HeaderType::from(s);
+        assert!(h == expect, "header name is matched case-insensitively");
+        assert!(h.to_string() == canon, "canonical spelling round-trips");
+    }
+    #[kani::proof]
+    #[kani::unwind(8)]
+    pub fn c07_header_accept() {
+        header_case_insensitive::<6>("Accept", HeaderType::Accept);
+    }
+    #[kani::proof]
+    #[kani::unwind(16)]
+    pub fn c07_header_accept_charset() {
+        header_case_insensitive::<14>("Accept-Charset", HeaderType::AcceptCharset);
+    }
+    #[kani::proof]
+    #[kani::unwind(17)]
+    pub fn c07_header_accept_encoding() {
+        header_case_insensitive::<15>("Accept-Encoding", HeaderType::AcceptEncoding);
+    }
+    #[kani::proof]
+    #[kani::unwind(17)]
+    pub fn c07_header_accept_language() {
+        header_case_insensitive::<15>("Accept-Language", HeaderType::AcceptLanguage);
+    }
+    #[kani::proof]
+    #[kani::unwind(31)]
+    pub fn c07_header_access_control_request_method() {
+        header_case_insensitive::<29>("Access-Control-Request-Method", HeaderType::AccessControlRequestMethod);
+    }
+    #[kani::proof]
+    #[kani::unwind(32)]
+    pub fn c07_header_access_control_request_headers() {
+        header_case_insensitive::<30>("Access-Control-Request-Headers", HeaderType::AccessControlRequestHeaders);
+    }
+    #[kani::proof]
+    #[kani::unwind(15)]
+    pub fn c07_header_authorization() {
+        header_case_insensitive::<13>("Authorization", HeaderType::Authorization);
+    }
+    #[kani::proof]
+    #[kani::unwind(15)]
+    pub fn c07_header_cache_control() {
+        header_case_insensitive::<13>("Cache-Control", HeaderType::CacheControl);
+    }
+    #[kani::proof]
+    #[kani::unwind(12)]
+    pub fn c07_header_connection() {
+        header_case_insensitive::<10>("Connection", HeaderType::Connection);
+    }
+    #[kani::proof]
+    #[kani::unwind(18)]
+    pub fn c07_header_content_encoding() {
+        header_case_insensitive::<16>("Content-Encoding", HeaderType::ContentEncoding);
+    }
+    #[kani::proof]
+    #[kani::unwind(16)]
+    pub fn c07_header_content_length() {
+        header_case_insensitive::<14>("Content-Length", HeaderType::ContentLength);
+    }
+    #[kani::proof]
+    #[kani::unwind(14)]
+    pub fn c07_header_content_type() {
+        header_case_insensitive::<12>("Content-Type", HeaderType::ContentType);
+    }
+    #[kani::proof]
+    #[kani::unwind(8)]
+    pub fn c07_header_cookie() {
+        header_case_insensitive::<6>("Cookie", HeaderType::Cookie);
+    }
+    #[kani::proof]
+    #[kani::unwind(6)]
+    pub fn c07_header_date() {
+        header_case_insensitive::<4>("Date", HeaderType::Date);
+    }
+    #[kani::proof]
+    #[kani::unwind(8)]
+    pub fn c07_header_expect() {
+        header_case_insensitive::<6>("Expect", HeaderType::Expect);
+    }
+    #[kani::proof]
+    #[kani::unwind(11)]
+    pub fn c07_header_forwarded() {
+        header_case_insensitive::<9>("Forwarded", HeaderType::Forwarded);
+    }
+    #[kani::proof]
+    #[kani::unwind(6)]
+    pub fn c07_header_from() {
+        header_case_insensitive::<4>("From", HeaderType::From);
+    }
+    #[kani::proof]
+    #[kani::unwind(6)]
+    pub fn c07_header_host() {
+        header_case_insensitive::<4>("Host", HeaderType::Host);
+    }
+    #[kani::proof]
+    #[kani::unwind(8)]
+    pub fn c07_header_origin() {
+        header_case_insensitive::<6>("Origin", HeaderType::Origin);
+    }
+    #[kani::proof]
+    #[kani::unwind(8)]
+    pub fn c07_header_pragma() {
+        header_case_insensitive::<6>("Pragma", HeaderType::Pragma);
+    }
+    #[kani::proof]
+    #[kani::unwind(9)]
+    pub fn c07_header_referer() {
+        header_case_insensitive::<7>("Referer", HeaderType::Referer);
+    }
+    #[kani::proof]
+    #[kani::unwind(9)]
+    pub fn c07_header_upgrade() {
+        header_case_insensitive::<7>("Upgrade", HeaderType::Upgrade);
+    }
+    #[kani::proof]
+    #[kani::unwind(12)]
+    pub fn c07_header_user_agent() {
+        header_case_insensitive::<10>("User-Agent", HeaderType::UserAgent);
+    }
+    #[kani::proof]
+    #[kani::unwind(5)]
+    pub fn c07_header_via() {
+        header_case_insensitive::<3>("Via", HeaderType::Via);
+    }
+    #[kani::proof]
+    #[kani::unwind(9)]
+    pub fn c07_header_warning() {
+        header_case_insensitive::<7>("Warning", HeaderType::Warning);
+    }
+    #[kani::proof]
+    #[kani::unwind(29)]
+    pub fn c07_header_access_control_allow_origin() {
+        header_case_insensitive::<27>("Access-Control-Allow-Origin", HeaderType::AccessControlAllowOrigin);
+    }
+    #[kani::proof]
+    #[kani::unwind(30)]
+    pub fn c07_header_access_control_allow_headers() {
+        header_case_insensitive::<28>("Access-Control-Allow-Headers", HeaderType::AccessControlAllowHeaders);
+    }
+    #[kani::proof]
+    #[kani::unwind(30)]
+    pub fn c07_header_access_control_allow_methods() {
+        header_case_insensitive::<28>("Access-Control-Allow-Methods", HeaderType::AccessControlAllowMethods);
+    }
+    #[kani::proof]
+    #[kani::unwind(5)]
+    pub fn c07_header_age() {
+        header_case_insensitive::<3>("Age", HeaderType::Age);
+    }
+    #[kani::proof]
+    #[kani::unwind(7)]
+    pub fn c07_header_allow() {
+        header_case_insensitive::<5>("Allow", HeaderType::Allow);
+    }
+    #[kani::proof]
+    #[kani::unwind(21)]
+    pub fn c07_header_content_disposition() {
+        header_case_insensitive::<19>("Content-Disposition", HeaderType::ContentDisposition);
+    }
+    #[kani::proof]
+    #[kani::unwind(18)]
+    pub fn c07_header_content_language() {
+        header_case_insensitive::<16>("Content-Language", HeaderType::ContentLanguage);
+    }
+    #[kani::proof]
+    #[kani::unwind(18)]
+    pub fn c07_header_content_location() {
+        header_case_insensitive::<16>("Content-Location", HeaderType::ContentLocation);
+    }
+    #[kani::proof]
+    #[kani::unwind(6)]
+    pub fn c07_header_etag() {
+        header_case_insensitive::<4>("ETag", HeaderType::ETag);
+    }
+    #[kani::proof]
+    #[kani::unwind(9)]
+    pub fn c07_header_expires() {
+        header_case_insensitive::<7>("Expires", HeaderType::Expires);
+    }
+    #[kani::proof]
+    #[kani::unwind(15)]
+    pub fn c07_header_last_modified() {
+        header_case_insensitive::<13>("Last-Modified", HeaderType::LastModified);
+    }
+    #[kani::proof]
+    #[kani::unwind(6)]
+    pub fn c07_header_link() {
+        header_case_insensitive::<4>("Link", HeaderType::Link);
+    }
+    #[kani::proof]
+    #[kani::unwind(10)]
+    pub fn c07_header_location() {
+        header_case_insensitive::<8>("Location", HeaderType::Location);
+    }
+    #[kani::proof]
+    #[kani::unwind(8)]
+    pub fn c07_header_server() {
+        header_case_insensitive::<6>("Server", HeaderType::Server);
+    }
+    #[kani::proof]
+    #[kani::unwind(12)]
+    pub fn c07_header_set_cookie() {
+        header_case_insensitive::<10>("Set-Cookie", HeaderType::SetCookie);
+    }
+    #[kani::proof]
+    #[kani::unwind(19)]
+    pub fn c07_header_transfer_encoding() {
+        header_case_insensitive::<17>("Transfer-Encoding", HeaderType::TransferEncoding);
+    }
+}
